@@ -46,6 +46,39 @@ def main(tier):
     scenes, ns, npairs, nchosen = build_scenes(tier, d, rnd)
     out = RC.run_scenes(hr, d, 'poly', scenes)
     recs = make_records(out)
+    # routes kept or recomputed by a long-lived router after add/move/delete transactions must be optimal for the
+    # final scene too (histories are behaviours of RouterApiMC, as in C06; one connector, interior-disjoint shapes)
+    from checks import c06
+    hists, rg = c06.gen_histories(d, 2500 if tier == 'quick' else 15000, 14, 7, V.seed() + 11, tier == 'quick')
+    ev.add_tlc('history generation (simulation of RouterApiMC)', rg)
+    hf = os.path.join(d, 'hists.txt')
+    hp = []
+    with open(hf, 'w') as f:
+        for h in hists:
+            h1 = [o for o in h if not (o[0] == 4 and o[1] == 2)]
+            P = rnd.choice([0, 0, 3, 10])
+            hp.append(P)
+            f.write('0 %d 1 %d %s\n' % (P, len(h1), ' '.join(str(x) for o in h1 for x in o)))
+    of = os.path.join(d, 'hists.json')
+    rc_, o_ = V.run([hr, 'hist', hf, of], timeout=1800)
+    if rc_ != 0:
+        raise V.Broken('h_route hist failed: ' + o_[-1000:])
+    hres = json.load(open(of))
+    LS = hres['LS']
+    ninc = 0
+    for hi, rs in enumerate(hres['hists']):
+        if rs['thrown']:
+            continue
+        for st in rs['steps']:
+            c = st['conns'][0]
+            if c['src'] == c['dst']:
+                continue
+            if any(RC.in_closed_convex(c['src'], RC.rect_poly(q[1:])) or RC.in_closed_convex(c['dst'], RC.rect_poly(q[1:])) for q in st['scene']):
+                continue          # C04 quantifies over endpoints in free space
+            recs.append({'scene': -1, 'thrown': False, 'polys': [[list(p) for p in RC.rect_poly(q[1:])] for q in st['scene']], 'src': c['src'], 'dst': c['dst'], 'P': hp[hi],
+                         'route': [[p[0] // LS, p[1] // LS] for p in c['raw']], 'exact': bool(c['exact']), 'history': hists[hi], 'after_op': st['op']})
+            ninc += 1
+    ev.cov['incremental_route_records'] = ninc
     rf = os.path.join(d, 'poly_recs.json')
     json.dump({'recs': recs}, open(rf, 'w'))
     r = V.tlc(PP, os.path.join(V.SPEC, 'avoid', 'PolyPath.cfg'), env={'POLYRECS': rf}, timeout=3000, cont=True, mem='24g')
@@ -57,8 +90,21 @@ def main(tier):
             continue
         seen.add((k, inv))
         rec = recs[k - 1]
+        def through_two_vertices(rec):
+            # classification only: some route segment passes exactly through two vertices of one polygon (F4)
+            rt = rec['route']
+            for a, b in zip(rt, rt[1:]):
+                for poly in rec['polys']:
+                    n = 0
+                    for v in poly:
+                        cr = (b[0] - a[0]) * (v[1] - a[1]) - (b[1] - a[1]) * (v[0] - a[0])
+                        if cr == 0 and min(a[0], b[0]) <= v[0] <= max(a[0], b[0]) and min(a[1], b[1]) <= v[1] <= max(a[1], b[1]):
+                            n += 1
+                    if n >= 2:
+                        return True
+            return False
         if inv == 'ValidRoute':
-            vd.violation('poly:invalid-route', 'route is not an obstacle-avoiding polyline between the endpoints: polys=%s src=%s dst=%s P=%s route=%s thrown=%s' %
+            vd.violation('visibility:segment-through-two-collinear-shape-vertices' if (not rec['thrown'] and rec['exact'] and through_two_vertices(rec)) else 'poly:invalid-route', 'route is not an obstacle-avoiding polyline between the endpoints: polys=%s src=%s dst=%s P=%s route=%s thrown=%s' %
                          (rec['polys'], rec['src'], rec['dst'], rec['P'], rec['route'], rec['thrown']), rec)
         else:
             vd.violation('poly:not-shortest' + (':penalised' if rec['P'] > 0 else ''),
